@@ -128,8 +128,8 @@ impl Scenario for C18 {
     const LEVEL: &'static str = "exploration";
     fn runs(tier: Tier) -> u64 {
         match tier {
-            Tier::Quick => 40_000,
-            Tier::Thorough => 1_500_000,
+            Tier::Quick => 300_000,
+            Tier::Thorough => 6_000_000,
         }
     }
     fn rule() -> &'static str {
